@@ -495,6 +495,11 @@ func (e *erasureCodingPartStore) newPartReader(ctx context.Context, tx database.
 				_, err := io.ReadFull(readers[i], fh)
 				if err != nil {
 					if errors.Is(err, io.EOF) || errors.Is(err, io.ErrUnexpectedEOF) {
+						if errors.Is(err, io.ErrUnexpectedEOF) {
+							// A frame header was started: this is a cut shard,
+							// not the end of the part.
+							seenAny = true
+						}
 						closeReaderAt(i)
 						healShards[i] = true
 						continue
